@@ -99,6 +99,8 @@ type World struct {
 	crafter *crafter
 	seq     int
 	fired   map[int]int // local timer expiries per slot
+	// firedTimer is the view timer (identity) that fired last at each slot: a one-shot timer fires once
+	firedTimer map[int]*time.Timer
 	// Starved is set when a handler had to be released by the watchdog (command stock exhausted)
 	Starved bool
 	// Drops enables the loss deviation (an in-flight message is discarded)
@@ -209,6 +211,12 @@ func (w *World) addInflight(m Msg) {
 
 func (w *World) timerCount(slot int) int { return w.fired[slot] }
 
+// timerArmed reports whether the replica's one-shot view timer can still fire: the timer that fired
+// last must have been replaced by a newly armed one (startTimeoutTimer) since.
+func (w *World) timerArmed(n *SimNode) bool {
+	return w.firedTimer[n.Slot] == nil || w.firedTimer[n.Slot] != n.Sync.VerifTimer()
+}
+
 // Default is the event the lock-step FIFO schedule takes next: deliver the oldest deliverable
 // message; if nothing is deliverable, fire the local timer of the lowest-numbered replica that
 // is still below the horizon. "" if nothing is enabled.
@@ -231,7 +239,7 @@ func (w *World) Default() string {
 		// fired least often goes first (ties: lowest slot)
 		slot := -1
 		for _, n := range w.Nodes {
-			if n.VS.View() <= w.Cfg.Horizon && !w.Cfg.Crashed[n.ID] && (slot < 0 || w.timerCount(n.Slot) < w.timerCount(slot)) {
+			if n.VS.View() <= w.Cfg.Horizon && !w.Cfg.Crashed[n.ID] && w.timerArmed(n) && (slot < 0 || w.timerCount(n.Slot) < w.timerCount(slot)) {
 				slot = n.Slot
 			}
 		}
@@ -363,7 +371,7 @@ func (w *World) Enabled() []string {
 	}
 	if w.Used.Timeouts < w.Cfg.Timeouts {
 		for _, n := range w.Nodes {
-			if n.VS.View() <= w.Cfg.Horizon && !w.Cfg.Crashed[n.ID] {
+			if n.VS.View() <= w.Cfg.Horizon && !w.Cfg.Crashed[n.ID] && w.timerArmed(n) {
 				evs = append(evs, fmt.Sprintf("T %d", n.Slot))
 			}
 		}
@@ -416,11 +424,18 @@ func (w *World) Apply(label string) bool {
 			return false
 		}
 		n := w.Nodes[slot]
+		if !w.timerArmed(n) {
+			return false
+		}
 		w.Used.Timeouts++
 		if w.fired == nil {
 			w.fired = map[int]int{}
 		}
 		w.fired[slot]++
+		if w.firedTimer == nil {
+			w.firedTimer = map[int]*time.Timer{}
+		}
+		w.firedTimer[slot] = n.Sync.VerifTimer()
 		w.begin(label, slot, nil)
 		w.guard(n, func() {
 			n.Loop.AddEvent(hotstuff.TimeoutEvent{View: n.VS.View()})
@@ -469,7 +484,13 @@ func (w *World) Key() string {
 		keys[i] = w.Inflight[i].Key
 	}
 	sort.Strings(keys)
-	fmt.Fprintf(h, "|F%v|B%d,%d,%d|%v|", keys, w.Used.Timeouts, w.Used.Dups, w.Used.Byz, w.fired)
+	var unarmed []int
+	for _, n := range w.Nodes {
+		if !w.timerArmed(n) {
+			unarmed = append(unarmed, n.Slot)
+		}
+	}
+	fmt.Fprintf(h, "|F%v|B%d,%d,%d|%v|U%v|", keys, w.Used.Timeouts, w.Used.Dups, w.Used.Byz, w.fired, unarmed)
 	h.Write([]byte(w.Mon.key()))
 	if w.crafter != nil {
 		h.Write([]byte(w.crafter.key()))
